@@ -155,13 +155,23 @@ func TestC04_Schedules(t *testing.T) {
 		}
 		var inflight []fl
 		var log []string
-		rejections, panics, mutations, cancels, rewraps := 0, 0, 0, 0, 0
+		rejections, panics, mutations, cancels, rewraps, doneOnArrival := 0, 0, 0, 0, 0, 0
 		used := map[string]bool{}
 		start := func(src string, mustAdmit, mustReject bool) {
 			if byIP && src == "" {
 				src = "a" // a peer always has an address
 			}
 			ctx, cancel := context.WithCancel(context.Background())
+			if rapid.IntRange(0, 9).Draw(t, "contextDoneOnArrival") == 0 {
+				// the client gave up (or its deadline passed) before the request got here: still a
+				// request of its source, counted and released like any other
+				if rapid.Bool().Draw(t, "deadlinePassed") {
+					ctx, cancel = context.WithDeadline(context.Background(), time.Now().Add(-time.Second))
+				} else {
+					cancel()
+				}
+				doneOnArrival++
+			}
 			req := httptest.NewRequest("GET", "http://x/", nil).WithContext(ctx)
 			setSource(req, longPrefix+src)
 			unidentifiable := false
@@ -323,6 +333,9 @@ func TestC04_Schedules(t *testing.T) {
 		}
 		if mutations > 0 {
 			cl2 = append(cl2, "handler-rewrites-source-header")
+		}
+		if doneOnArrival > 0 {
+			cl2 = append(cl2, "context-done-on-arrival")
 		}
 		if cancels > 0 {
 			cl2 = append(cl2, "context-cancelled-while-in-flight")
